@@ -75,7 +75,7 @@ func (s *VerifSession) Buffered() int {
 
 // PendingIDs returns the message IDs with a stored transaction.
 func (s *VerifSession) PendingIDs() []uint16 {
-	return s.h.transactions.VerifIDs()
+	return append(s.h.transactions.VerifIDs(), s.h.brokerTransactions.VerifIDs()...)
 }
 
 // SkipTopicIDs consumes n values of the topic ID sequence.
